@@ -182,7 +182,8 @@ def marker_sessions(rep: Report, pids: tuple, n_random: int, n_law: int, selfche
     try:
         states, rejects = validate(sessions, tmp)
         if selfcheck:
-            _selfcheck(sessions[:40], tmp)
+            dirty = {sid for sid, _, _ in rejects}
+            _selfcheck([x for x in sessions if x["sid"] not in dirty][:40], tmp)      # only sessions the specification accepted as recorded
     finally:
         shutil.rmtree(tmp, ignore_errors=True)
     by_sid = {s["sid"]: s for s in sessions}
